@@ -21,6 +21,39 @@ def _scalar(t):
     return not t.get("arr") and not t.get("rec") and t.get("s") not in ("void",) and not str(t.get("s", "")).startswith(("struct ", "union "))
 
 
+def _input_dependent_failure(g):
+    """does some failing return of g sit under a condition that consults a call result (a file read, a string comparison, a
+    conversion)?  A function that fails only on tests of its arguments and of the topology state (id >= nr, flags != 0) fails on a
+    violated precondition, which callers commonly exclude by construction: such failures are not taken to be feasible here."""
+    fromcall = set()
+    for n in g.walk():
+        a = assigned(n)
+        if a and a[2] is not None and lv(a[0]) and any(s["k"] == "Call" for s in subnodes(a[2])):
+            fromcall.add(lv(a[0]))
+        elif n["k"] == "Var" and n.get("c") and n["c"][0] is not None and any(s["k"] == "Call" for s in subnodes(n["c"][0])):
+            fromcall.add(n["n"])
+    def consults(cond):
+        return cond is not None and any(s["k"] == "Call" or (s["k"] == "Ref" and s["n"] in fromcall) for s in subnodes(cond))
+    for r in g.walk():
+        if r["k"] != "Return" or not r.get("c") or r["c"][0] is None:
+            continue
+        v = cval(r["c"][0])
+        if v is None or v >= 0:
+            continue
+        for anc in g.ancestors(r):
+            if anc["k"] in ("If", "While", "For", "Do", "Switch", "Cond") and anc.get("c"):
+                conds = [anc["c"][0]] if anc["k"] != "For" else [anc["c"][1]]
+                if any(consults(c) for c in conds):
+                    return True
+    # failure reached through a label:  if (read(..) < 0) goto out;  ...  out: return -1;
+    for n in g.walk():
+        if n["k"] == "Goto":
+            for anc in g.ancestors(n):
+                if anc["k"] == "If" and consults(anc["c"][0]):
+                    return True
+    return False
+
+
 def reader_params(P, g):
     """indices of pointer parameters that g stores through on its successful paths only"""
     if g.name in _SUM:
@@ -34,13 +67,15 @@ def reader_params(P, g):
             cands[p["n"]] = i
     if not cands or g.entry is None or T[g.d["ret"]].get("ptr") or T[g.d["ret"]]["s"] == "void":
         return ()
+    def through(k, pn):
+        return k is not None and (k in ("(*%s)" % pn, "%s[0]" % pn) or k.startswith(pn + "->") or k.startswith("(*%s)." % pn))
     stored_somewhere = set()
     for n in g.walk():
         a = assigned(n)
         if a:
             k = lv(a[0])
             for pn in cands:
-                if k in ("(*%s)" % pn, "%s[0]" % pn):
+                if through(k, pn):
                     stored_somewhere.add(pn)
     if not stored_somewhere:
         return ()
@@ -50,7 +85,7 @@ def reader_params(P, g):
         if a:
             k = lv(a[0])
             for pn in stored_somewhere:
-                if k in ("(*%s)" % pn, "%s[0]" % pn):
+                if through(k, pn):
                     env["?" + pn] = 0
                 elif k == pn:
                     env["?" + pn] = 2      # the parameter itself is re-pointed: unknown
@@ -69,9 +104,12 @@ def reader_params(P, g):
         ex = exits[pn]
         if any(d == 2 for v, d in ex):
             continue
-        unstored = [v for v, d in ex if d == 1]
+        # the claim made for callers concerns the FAILED outcome only: some failing exit has stored nothing through the parameter
+        # (scalar or record) -- after a failed call the caller's variable MAY be as it was -- and the function does store on some
+        # successful exit
+        failing = [d for v, d in ex if v is not None and v < 0]
         stored_ok = [v for v, d in ex if d == 0 and v is not None and v >= 0]
-        if unstored and stored_ok and all(v is not None and v < 0 for v in unstored):
+        if failing and stored_ok and any(d == 1 for d in failing) and _input_dependent_failure(g):
             out.append(cands[pn])
     _SUM[g.name] = tuple(out)
     return _SUM[g.name]
@@ -88,8 +126,8 @@ def run(chk, P, units, rule="R-UNINIT", maxstates=150000):
             bare = set()
             nullp = set()      # pointer locals initialised to NULL: a failed reader leaves them NULL
             for n in f.walk():
-                if n["k"] == "Var" and not (n.get("c") and n["c"][0] is not None) and _scalar(T[n["t"]]) and not n.get("static"):
-                    bare.add(n["n"])
+                if n["k"] == "Var" and not (n.get("c") and n["c"][0] is not None) and (_scalar(T[n["t"]]) or (T[n["t"]].get("rec") and not T[n["t"]].get("arr"))) and not n.get("static"):
+                    bare.add(n["n"])      # scalars, and struct/union locals (read field by field)
                 elif n["k"] == "Var" and n.get("c") and n["c"][0] is not None and T[n["t"]].get("ptr") and cval(n["c"][0]) == 0 and not n.get("static"):
                     nullp.add(n["n"])
             nullp -= bare
@@ -128,6 +166,9 @@ def run(chk, P, units, rule="R-UNINIT", maxstates=150000):
                 if a and lv(a[0]) in vars_ and a[1] == "=":
                     env["?" + lv(a[0])] = 3 if (lv(a[0]) in nullp and a[2] is not None and cval(a[2]) == 0) else 0
                     return
+                if a and a[1] == "=" and lv(a[0]) and lv(a[0]).split(".")[0] in vars_ and "->" not in lv(a[0]):
+                    env["?" + lv(a[0]).split(".")[0]] = 0      # a field of a record local is stored: taken to be defined from here on
+                    return
                 if k == "Call" and n["id"] not in byc:
                     # address handed to anything else: taken to be stored
                     for x in n["c"][1:]:
@@ -147,10 +188,12 @@ def run(chk, P, units, rule="R-UNINIT", maxstates=150000):
                         bad.setdefault((base, env["?@" + base]), f.loc(n))
                     return
                 if k == "Ref" and n["n"] in vars_ and env.get("?" + n["n"]) == 1 and env.get("?@" + n["n"]) is not None:
+                    top = n
                     par = f.par(n)
-                    while par is not None and par["k"] == "Cast":
+                    while par is not None and (par["k"] == "Cast" or (par["k"] == "Member" and not par.get("arrow") and strip(par["c"][0]) is top)):
+                        top = par
                         par = f.par(par)
-                    if par is not None and ((par["k"] == "Unary" and par["op"] == "&") or par["k"] == "SizeOf" or (par["k"] == "Binary" and par["op"] == "=" and strip(par["c"][0]) is n)):
+                    if par is not None and ((par["k"] == "Unary" and par["op"] == "&") or par["k"] == "SizeOf" or (par["k"] == "Binary" and par["op"] == "=" and strip(par["c"][0]) is strip(top))):
                         return
                     bad.setdefault((n["n"], env["?@" + n["n"]]), f.loc(n))
             def hook(c, kind, upd, env, byc=byc, vars_=vars_):
